@@ -91,7 +91,12 @@ type Case struct {
 	Stages []Stage  `json:"stages,omitempty"`
 	Call   bool     `json:"call,omitempty"` // err family: Stages[0] written as a direct call f(args) without piped value
 	ErrFn  string   `json:"errfn,omitempty"`
-	Why    string   `json:"why,omitempty"` // err family: unknown | arity | conversion | returned
+	// err family, call form only: the failing call f(args) sits inside an operator expression:
+	//   not: !f(args)   notparen: !(f(args))   or: !X || f(args)   and: !X && f(args)
+	// X (WrapX) is a bool path chosen so that the right operand has to be evaluated.
+	Wrap  string `json:"wrap,omitempty"`
+	WrapX string `json:"wrapx,omitempty"`
+	Why   string `json:"why,omitempty"` // err family: unknown | arity | conversion | returned
 }
 
 // Text is the expression source placed into the template.
@@ -101,7 +106,18 @@ func (c Case) Text() string {
 		return c.E.Text()
 	}
 	if c.Call {
-		return c.Stages[0].Text()
+		f := c.Stages[0].Text()
+		switch c.Wrap {
+		case "not":
+			return "!" + f
+		case "notparen":
+			return "!(" + f + ")"
+		case "or":
+			return "!" + c.WrapX + " || " + f
+		case "and":
+			return "!" + c.WrapX + " && " + f
+		}
+		return f
 	}
 	parts := []string{c.Init}
 	for _, s := range c.Stages {
@@ -575,6 +591,13 @@ func checkErr(c Case, env map[string]any, pos []string) error {
 		}
 	default:
 		return fmt.Errorf("CHECK-BUG: why=%q", c.Why)
+	}
+	if c.Wrap == "or" || c.Wrap == "and" {
+		// no short-circuit may skip the failing call: !X must be false for ||, true for &&
+		x, ok := resolve(env, c.WrapX)
+		if b, isB := x.(bool); !ok || !isB || b != (c.Wrap == "or") {
+			return fmt.Errorf("CHECK-BUG: %s: left operand %s=%v lets the call be skipped", src, c.WrapX, x)
+		}
 	}
 	eng := newEngine(env)
 	for _, p := range pos {
